@@ -464,6 +464,8 @@ pub fn runtime() -> Runtime<NoCtx> {
             }
             fn to_string(self) -> RotoString {
                 self.check("Trk.to_string");
+                // observable: the formatting of an f-string part is a host call like any other
+                lp!("Trk.to_string", vec![V::Trk(self.tag)]);
                 RotoString::from(format!("T{}", self.tag))
             }
         }
